@@ -199,9 +199,19 @@ def eval_twin(case):
         for q, args in (('count', (probe,)), ('find', (probe,)), ('rfind', (probe, 1)), ('endswith', (probe,)), ('isupper', ()),
                         ('istitle', ()), ('is_formatting_valid', ()), ('is_formatting_parsable', ()), ('is_optimizable', ()),
                         ('settings_at', (0,)), ('find_settings', ('red',)), ('__len__', ()), ('__contains__', (probe,)),
-                        ('encode', ())):
-            if getattr(S, q)(*args) != getattr(s, q)(*args):
-                o.fail('twin-query-differs', '%s: %s%r: %r vs %r' % (where, q, args, getattr(S, q)(*args), getattr(s, q)(*args)))
+                        ('encode', ()), ('encode', ('ascii', 'replace')), ('encode', ('ascii', 'ignore')), ('encode', ('ascii',)),
+                        ('encode', ('utf-16', 'strict')), ('encode', ('latin-1', 'xmlcharrefreplace')), ('encode', ('ascii', 'backslashreplace')),
+                        ('count', (probe, 1, -1)), ('find', (probe, -3)), ('rfind', (probe, None, -1)), ('endswith', ((probe, t[-1:]), 0, None)),
+                        ('index', (probe, 0, len(t) + 3)), ('rindex', (probe, -len(t) - 2)), ('settings_at', (len(t) - 1,)),
+                        ('settings_at', (-1,)), ('find_settings', ('red', 1, None, True)), ('find_settings', ([], 0, 2)),
+                        ('to_str', ('>%d' % (len(t) + 2), False, True, False)), ('to_str', (None, True, True, True))):
+            rS, rs = qcall(S, q, args), qcall(s, q, args)
+            if rS != rs:
+                o.fail('twin-query-differs', '%s: %s%r: %r vs %r' % (where, q, args, rS, rs))
+            if q == 'encode' and rS[0] == 'ok':
+                want = str(S).encode(*args)
+                if rS[1] != want:
+                    o.fail('encode-differs', '%s: encode%r = %r, str(...).encode gives %r' % (where, args, rS[1], want))
         if [str(x) for x in S.ansi_settings_at(0)] != [str(x) for x in s.ansi_settings_at(0)]:
             o.fail('twin-query-differs', where)
         it = list(s)
@@ -210,6 +220,14 @@ def eval_twin(case):
         o.label(name)
     o.nontrivial = steps >= 2 and cp_max >= 2
     return o
+
+
+def qcall(obj, q, args):
+    try:
+        return ('ok', getattr(obj, q)(*args))
+    except (ValueError, UnicodeError, IndexError, TypeError) as e:
+        from vlib.core import lib_frame
+        return ('exc', type(e).__name__)
 
 
 def coverage_gap():
